@@ -224,7 +224,11 @@ def rule_delivery(report, prog):
     # destination parameter on, in the callee's destination position, and never rebinds it
     chain = [('nfc.llcp.socket.Socket.sendto', 'addr', 'self.llc.sendto', 2),
              (LLC + '.sendto', 'dest', 'socket.sendto', 1),
-             ('nfc.llcp.tco.LogicalDataLink.sendto', 'dest', 'pdu.UnnumberedInformation', 0)]
+             ('nfc.llcp.tco.LogicalDataLink.sendto', 'dest', 'pdu.UnnumberedInformation', 0),
+             # connect: the name / address the application gives is what the connection asks the peer for (no local short cut
+             # through the service discovery cache: the peer resolves a name when the CONNECT arrives)
+             ('nfc.llcp.socket.Socket.connect', 'address', 'self.llc.connect', 1),
+             (LLC + '.connect', 'dest', 'socket.connect', 0)]
     for q, param, callee, pos in chain:
         fn = prog.func(q)
         if param not in fn.params:
@@ -239,6 +243,20 @@ def rule_delivery(report, prog):
     cs = [c for c in ast.walk(snd.node) if isinstance(c, ast.Call) and norm(c.func) == 'self.sendto']
     report.check(len(cs) == 1 and [norm(a) for a in cs[0].args] == ['socket', 'message', 'socket.peer', 'flags'], 'C17-R5',
                  key(snd.qname, 'send() addresses the connected peer'), snd.loc(), 'send() no longer sends to socket.peer')
+    # a socket's own address is its binding: only bind() writes it (closing goes through the SAP, which needs the address to find
+    # and free the entry -- a socket that forgets its address on close() can never be removed, its address and name stay taken)
+    wr = []
+    for q, fn in sorted(prog.functions.items()):
+        if q.startswith('nfc.llcp.tco.') and fn.cls is not None:
+            for st in walk_no_nested(fn.node):
+                tg = st.targets if isinstance(st, ast.Assign) else [st.target] if isinstance(st, ast.AugAssign) else []
+                if any(isinstance(x, ast.Attribute) and norm(x) == 'self.addr' for t in tg for x in ast.walk(t)):
+                    wr.append((fn, st))
+    bad_ = [(fn, st) for fn, st in wr if fn.name not in ('__init__', 'bind')]
+    report.check(len(wr) >= 2 and not bad_, 'C17-R3', key('nfc.llcp.tco', 'a socket address is written by bind() only'),
+                 bad_[0][0].loc(bad_[0][1]) if bad_ else 'src/nfc/llcp/tco.py',
+                 '%s writes self.addr (`%s`): the service access point can no longer find the socket to release its address'
+                 % (bad_[0][0].qname if bad_ else '', norm(bad_[0][1]) if bad_ else ''))
     # service discovery answers come from the local name table; results are stored under the requested name
     e = prog.func(SD + '.enqueue')
     report.check(bool(find(e.node, 'sap = self.llc.snl[name]')) and bool(find(e.node, 'self.sdres.append((tid, sap))')),
@@ -302,6 +320,8 @@ def run(report, prog, tier):
     rule_release(report, prog)
     rule_errnos(report, prog, res)
     rule_delivery(report, prog)
+    from .c05 import rule_sap_order
+    rule_sap_order(report, prog, rule='C17-R5')
     rule_once(report, prog)
     report.assumptions += ['the address table is only modified by the functions of nfc.llcp.llc (checked: stores to self.sap[...])']
     # who writes the table
@@ -322,6 +342,10 @@ def run(report, prog, tier):
 L = 'nfc.llcp.llc'
 T = 'nfc.llcp.tco'
 MUTANTS = [
+    ('dlc-close-forgets-address', 'nfc.llcp.tco', """            super(DataLinkConnection, self).close()
+            self.acks_ready.notify_all()""", """            super(DataLinkConnection, self).close()
+            self.addr = None
+            self.acks_ready.notify_all()""", 'C17-R3'),
     ('sendto-dest-from-peer', L, """        if isinstance(socket, tco.LogicalDataLink):
             if dest is None:""", """        if isinstance(socket, tco.LogicalDataLink):
             dest = socket.peer or dest
